@@ -10,6 +10,7 @@ import (
 	"sort"
 	"strings"
 	"sync"
+	"sync/atomic"
 	"time"
 
 	pb "google.golang.org/protobuf/proto"
@@ -72,6 +73,8 @@ type Sim struct {
 	writes  []*Write
 	notes   []string
 	bl      map[string]*blCall // running BecomeLeader calls by node
+
+	writeGateOn atomic.Bool
 }
 
 type blCall struct {
@@ -81,6 +84,35 @@ type blCall struct {
 }
 
 var current *Sim
+
+// writeGate parks a leader's writer between offset allocation and WAL append (only while the
+// scheduler asked for it)
+func writeGate(shard int64, offset int64) {
+	s := current
+	if s == nil || !s.writeGateOn.Load() {
+		return
+	}
+	_ = s.park(context.Background(), "write", "*", fmt.Sprint(offset))
+}
+
+// WriteGate switches the writer gate on or off
+func (s *Sim) WriteGate(on bool) { s.writeGateOn.Store(on) }
+
+// ParkedWriters returns the offsets of the writers waiting at the gate
+func (s *Sim) ParkedWriters() []int64 {
+	s.mu.Lock()
+	defer s.mu.Unlock()
+	var out []int64
+	for _, p := range s.parkedL {
+		if p.kind == "write" {
+			var o int64
+			fmt.Sscan(p.to, &o)
+			out = append(out, o)
+		}
+	}
+	sort.Slice(out, func(i, j int) bool { return out[i] < out[j] })
+	return out
+}
 
 func syncGate(walPath string, lastAppended, lastSynced int64) {
 	s := current
@@ -113,6 +145,7 @@ func New(names []string) (*Sim, error) {
 	s.cond = sync.NewCond(&s.mu)
 	current = s
 	wal.VerifSyncGate = syncGate
+	server.VerifWriteGate = writeGate
 	for _, name := range names {
 		n := &Node{Name: name, walDir: filepath.Join(dir, name, "wal"), dbDir: filepath.Join(dir, name, "db")}
 		s.nodes[name] = n
